@@ -84,6 +84,15 @@ def make_cases(ctx):
                     sid, ver[0], ver[1], etm, c_rsl, s_rsl, pad, rep)
                 yield cid, dict(sid=sid, ver=ver, etm=etm, c_rsl=c_rsl,
                                 s_rsl=s_rsl, pad=pad, rep=rep, long=False)
+                # the same cell over a resumed connection (every third cell
+                # in quick, limits chosen to differ between the two sides)
+                if not ctx.quick or (sid + ver[1] + rep) % 3 == 0:
+                    how = "ticket" if (sid + rep) % 2 else "id"
+                    c2, s2 = rng.choice([(512, 65), (64, 2 ** 14 + 1),
+                                         (2 ** 14 + 1, 300), (c_rsl, s_rsl)])
+                    yield cid + "-res", dict(
+                        sid=sid, ver=ver, etm=etm, c_rsl=c2, s_rsl=s2,
+                        pad=pad, rep=rep, long=False, resumed=how)
     # long streams, one per cipher family (thorough)
     if not ctx.quick:
         seen = set()
@@ -114,9 +123,30 @@ def run_case(ctx, cid, P):
     kw_c = dict(useEncryptThenMAC=P["etm"], record_size_limit=P["c_rsl"])
     kw_s = dict(useEncryptThenMAC=P["etm"], record_size_limit=P["s_rsl"])
     fl = suites.flavor_for(P["sid"], ver, cset_kw=kw_c, sset_kw=kw_s)
+    if P.get("resumed"):
+        # the stream runs over a *resumed* connection: limits and modes have
+        # to be negotiated again there, with the same meaning
+        from tlslite.sessioncache import SessionCache
+        from vt.flavours import TK, pump
+        if P["resumed"] == "ticket":
+            fl.sset.ticketKeys = TK
+        else:
+            fl.session_cache = SessionCache()
+        p0 = Pair()
+        t0c, t0s = p0.handshake(fl)
+        if t0c.status == "done" and t0s.status == "done":
+            pump(p0, p0.c, p0.csock)
+            drive.run([drive.Task("cc", drive.aclose(p0.c), p0.csock),
+                       drive.Task("sc", drive.aclose(p0.s), p0.ssock)],
+                      p0.link)
+            if p0.c.session is not None and p0.c.session.valid():
+                fl.session = p0.c.session
     p = Pair()
     rlog = {"c": mon.tap_recv(p.s, []), "s": mon.tap_recv(p.c, [])}
     tc, ts = p.handshake(fl)
+    if P.get("resumed"):
+        ctx.count("resumed_connections" if p.c.resumed else
+                  "resumption_declined")
     if tc.status != "done" or ts.status != "done":
         ctx.violation({"clause": "honest_handshake_failed",
                        "suite": su.name, "ver": list(ver),
